@@ -118,8 +118,13 @@ class MarkerExpression(SingleMarker):
             pkg_spec = next(iter(specifier.to_specifierset()))
             pkg_version = pkg_spec.version
             if (
-                dot_num := pkg_version.count(".")
-            ) < 2 and name == "python_full_version":
+                name == "python_full_version"
+                and pkg_spec.operator != "~="
+                and all(part.isdigit() for part in pkg_version.split("."))
+                and (dot_num := pkg_version.count(".")) < 2
+            ):
+                # X or X.Y -> X.Y.0; never pad `~=` (it would change the range),
+                # wildcards or versions with a pre/post/dev/epoch segment.
                 for _ in range(2 - dot_num):
                     pkg_version += ".0"
             return MarkerExpression(
